@@ -34,6 +34,8 @@ type tok struct {
 	Arms      [][]tok
 	CountPrev bool
 	Pos       token.Pos
+	Call      ssa.CallInstruction // sub: the call itself
+	Len       int64               // prim Bytes: the constant length given to ReadN / WriteN (0 if not constant)
 }
 
 func (t tok) String() string {
@@ -78,6 +80,47 @@ type shaper struct {
 	problem string
 	depth   int
 	exits   []*ssa.BasicBlock // exit blocks of the loops being walked (targets of break)
+	headers []*ssa.BasicBlock // headers of the loops being walked (targets of continue)
+}
+
+func (s *shaper) loopHeader(b *ssa.BasicBlock) bool {
+	for _, e := range s.headers {
+		if e == b {
+			return true
+		}
+	}
+	return false
+}
+
+// returnsQuietly: every path from b ends in a return without touching the
+// stream and without coming back to a loop being walked (an early success
+// return from inside a loop body: like a break).
+func (s *shaper) returnsQuietly(b *ssa.BasicBlock) bool {
+	seen := map[*ssa.BasicBlock]bool{}
+	var walk func(b *ssa.BasicBlock) bool
+	walk = func(b *ssa.BasicBlock) bool {
+		if seen[b] {
+			return true
+		}
+		seen[b] = true
+		if s.loopHeader(b) || len(seen) > 12 {
+			return false
+		}
+		if len(s.blockToks(b)) > 0 {
+			return false
+		}
+		if len(b.Succs) == 0 {
+			_, isRet := b.Instrs[len(b.Instrs)-1].(*ssa.Return)
+			return isRet
+		}
+		for _, sc := range b.Succs {
+			if !walk(sc) {
+				return false
+			}
+		}
+		return true
+	}
+	return walk(b)
 }
 
 // loopExit: b is the exit of a loop whose body is being walked.
@@ -181,6 +224,11 @@ func (s *shaper) callTok(call ssa.CallInstruction) (tok, bool) {
 	if f := cc.StaticCallee(); f != nil {
 		if name, dir := basicPrim(f); name != "" {
 			t.Kind, t.Name, t.Dir = "prim", name, dir
+			if name == "Bytes" && len(cc.Args) == 3 {
+				if n, ok := core.ConstInt(cc.Args[2]); ok {
+					t.Len = n
+				}
+			}
 			if dir == "write" {
 				if name == "Bytes" {
 					t.Val = cc.Args[1]
@@ -208,7 +256,7 @@ func (s *shaper) callTok(call ssa.CallInstruction) (tok, bool) {
 			if it, ok := s.inlineHelper(call, f); ok {
 				return it, true
 			}
-			t.Kind, t.Name, t.Fn = "sub", k, f
+			t.Kind, t.Name, t.Fn, t.Call = "sub", k, f, call
 			if cv, ok := call.(*ssa.Call); ok {
 				t.Val = firstResult(cv)
 			}
@@ -273,8 +321,17 @@ func (s *shaper) inlineHelper(call ssa.CallInstruction, f *ssa.Function) (tok, b
 	cc := call.Common()
 	for i, a := range cc.Args {
 		if s.streamArg(a) && i < len(f.Params) {
-			if _, isIface := f.Params[i].Type().Underlying().(*types.Interface); isIface {
+			switch f.Params[i].Type().Underlying().(type) {
+			case *types.Interface, *types.Pointer:
 				param = f.Params[i]
+			case *types.Struct:
+				// a value receiver holding the stream (q qiDecoder): only a helper with a
+				// single call site is a moved-out piece of its caller; the others (readValue,
+				// value) are the element codecs and stay opaque steps
+				sites, _ := s.c.CallSites()
+				if len(sites[f]) == 1 {
+					param = f.Params[i]
+				}
 			}
 		}
 	}
@@ -400,8 +457,8 @@ func (s *shaper) seq(start, stop *ssa.BasicBlock, seen map[*ssa.BasicBlock]bool)
 	var out []tok
 	cur := start
 	for steps := 0; cur != nil && cur != stop; steps++ {
-		if s.loopExit(cur) && cur != start {
-			return out // break: the iteration ends here
+		if (s.loopExit(cur) || s.loopHeader(cur)) && cur != start {
+			return out // break / continue: the iteration ends here
 		}
 		if steps > 400 || seen[cur] {
 			s.problem = "control flow too irregular to extract a wire shape"
@@ -435,8 +492,10 @@ func (s *shaper) seq(start, stop *ssa.BasicBlock, seen map[*ssa.BasicBlock]bool)
 				}
 				delete(bodySeen, cur)
 				s.exits = append(s.exits, exit)
+				s.headers = append(s.headers, cur)
 				kids := append(hdrToks, s.seq(body, cur, bodySeen)...)
 				s.exits = s.exits[:len(s.exits)-1]
+				s.headers = s.headers[:len(s.headers)-1]
 				rep := tok{Kind: "rep", Kids: kids, Pos: last.Pos()}
 				// bound derives from the preceding prim?
 				if len(out) > 0 {
@@ -478,6 +537,17 @@ func (s *shaper) seq(start, stop *ssa.BasicBlock, seen map[*ssa.BasicBlock]bool)
 			if s.loopExit(cur.Succs[1]) && !s.loopExit(cur.Succs[0]) {
 				cur = cur.Succs[0]
 				continue
+			}
+			// an early success return from inside a loop body that touches the stream no more
+			if len(s.headers) > 0 {
+				if s.returnsQuietly(cur.Succs[0]) && !s.returnsQuietly(cur.Succs[1]) && canSucceed(cur.Succs[0]) {
+					cur = cur.Succs[1]
+					continue
+				}
+				if s.returnsQuietly(cur.Succs[1]) && !s.returnsQuietly(cur.Succs[0]) && canSucceed(cur.Succs[1]) {
+					cur = cur.Succs[0]
+					continue
+				}
 			}
 			t, f := cur.Succs[0], cur.Succs[1]
 			tOK, fOK := canSucceed(t), canSucceed(f)
